@@ -7,6 +7,7 @@ import ast
 from fractions import Fraction
 import z3
 
+from .sym import select as _sel
 from .sym import (Sym, SInt, SReal, SBool, SSeq, CList, CDict, SRange, SOpt, SObj, SOpaque, CheckerError,
                   arith, compare, tz, tb, treal, wrap, fresh, Len, At, And, Or, Not, Implies, Iff, Ite, uf, ForAll,
                   strictly_increasing, member)
@@ -26,10 +27,13 @@ TYPE_NAMES = {"int", "float", "str", "list", "tuple", "dict", "range", "bool", "
               "np.ndarray", "np.float64", "np.int64", "np.integer", "np.floating", "object", "type"}
 
 # sum over a prefix of an array: SUM(a, n) = a[0] + ... + a[n-1]
-_SUM = z3.RecFunction("SUM", z3.ArraySort(z3.IntSort(), z3.RealSort()), z3.IntSort(), z3.RealSort())
+# SUM is uninterpreted in the verification conditions; its recursive definition is available as SUM_AXIOMS to the
+# contracts that argue about sums (ghost inductions); everywhere else only "the same sum" matters.
+_SUM = z3.Function("SUM", z3.ArraySort(z3.IntSort(), z3.RealSort()), z3.IntSort(), z3.RealSort())
 _a = z3.Const("SUM.a", z3.ArraySort(z3.IntSort(), z3.RealSort()))
 _n = z3.Int("SUM.n")
-z3.RecAddDefinition(_SUM, [_a, _n], z3.If(_n <= 0, z3.RealVal(0), _SUM(_a, _n - 1) + z3.Select(_a, _n - 1)))
+SUM_AXIOMS = [z3.ForAll([_a, _n], z3.Implies(_n <= 0, _SUM(_a, _n) == 0), patterns=[_SUM(_a, _n)]),
+              z3.ForAll([_a, _n], z3.Implies(_n > 0, _SUM(_a, _n) == _SUM(_a, _n - 1) + z3.Select(_a, _n - 1)), patterns=[_SUM(_a, _n)])]
 
 
 def SUM(arr, n):
@@ -163,6 +167,8 @@ class Lib:
             return None
         if isinstance(it, SOpaque) and it.tag == "iter":
             return list(it.payload)
+        if isinstance(it, SOpaque) and it.tag == "set":
+            return list(it.payload)       # iteration order of a set is unspecified: callers must not depend on it
         return None
 
     def iterate_concrete(self, interp, it, node):
@@ -340,9 +346,12 @@ class Lib:
         return cur
 
     def lambda_seq(self, interp, n, k, v, kind, node):
+        """the sequence [v(k) for k in range(n)]: a *named* array constant with a definitional axiom (so that it can be an
+        argument of SUM etc. without lambda terms reaching the solver); element reads are beta-reduced eagerly"""
         none = None
+        nbody = None
         if isinstance(v, SOpt):
-            none = z3.Lambda([k], tb(v.isnone))
+            nbody = tb(v.isnone)
             v = v.val if v.val is not None else Fraction(0)
         if isinstance(v, (int, SInt)) and not isinstance(v, bool):
             ek, body = "int", tz(v)
@@ -352,7 +361,21 @@ class Lib:
             ek, body = "bool", tb(v)
         else:
             interp.err(node, "comprehension element of kind %s over a symbolic iterable" % type(v).__name__)
-        return SSeq(n, z3.Lambda([k], body), kind, ek, none)
+        ctx = interp.ctx
+        name = fresh("lam")
+        A = z3.Const(name, z3.ArraySort(z3.IntSort(), body.sort()))
+        rng = z3.And(0 <= k, k < tz(n))
+        ctx._add(z3.ForAll([k], z3.Implies(rng, z3.Select(A, k) == body), patterns=[z3.Select(A, k)]))
+        seq = SSeq(n, A, kind, ek, None)
+        seq.defn = (k, body)
+        seq._defn_arr = A
+        if nbody is not None:
+            N = z3.Const(name + ".none", z3.ArraySort(z3.IntSort(), z3.BoolSort()))
+            ctx._add(z3.ForAll([k], z3.Implies(rng, z3.Select(N, k) == nbody), patterns=[z3.Select(N, k)]))
+            seq.none = N
+            seq.defn_none = (k, nbody)
+            seq._defn_none_arr = N
+        return seq
 
     def dict_comprehension(self, interp, node, env):
         d = CDict()
@@ -561,15 +584,15 @@ class Lib:
                 a, b = self.slice_bounds(interp, n, lo, hi, st, node)
                 ln = Ite(compare(">", b, a), arith("-", b, a), 0)
                 k = z3.Int(fresh("sl"))
-                arr = z3.Lambda([k], z3.Select(obj.arr, k + tz(a)))
-                none = z3.Lambda([k], z3.Select(obj.none, k + tz(a))) if obj.none is not None else None
+                arr = z3.Lambda([k], _sel(obj.arr, k + tz(a)))
+                none = z3.Lambda([k], _sel(obj.none, k + tz(a))) if obj.none is not None else None
                 return SSeq(ln, arr, obj.kind, obj.ekind, none)
             if isinstance(st, int) and st > 1 and (lo is None or isinstance(lo, (int, SInt))) and hi is None:
                 a, b = self.slice_bounds(interp, n, lo, hi, None, node)
                 ln = Ite(compare(">", b, a), arith("+", arith("//", arith("-", arith("-", b, a), 1), st), 1), 0)
                 k = z3.Int(fresh("sl"))
-                arr = z3.Lambda([k], z3.Select(obj.arr, k * st + tz(a)))
-                none = z3.Lambda([k], z3.Select(obj.none, k * st + tz(a))) if obj.none is not None else None
+                arr = z3.Lambda([k], _sel(obj.arr, k * st + tz(a)))
+                none = z3.Lambda([k], _sel(obj.none, k * st + tz(a))) if obj.none is not None else None
                 return SSeq(ln, arr, obj.kind, obj.ekind, none)
             if isinstance(st, SInt) and hi is None:
                 # a[lo::st] with a symbolic positive step: k-th element is a[lo + k*st]
@@ -580,8 +603,8 @@ class Lib:
                 ln = Ite(compare(">", b, a), arith("+", arith("//", arith("-", arith("-", b, a), 1), st), 1), 0)
                 k = z3.Int(fresh("sl"))
                 idx = tz(arith("+", a, arith("*", SInt(k), st)))
-                arr = z3.Lambda([k], z3.Select(obj.arr, idx))
-                none = z3.Lambda([k], z3.Select(obj.none, idx)) if obj.none is not None else None
+                arr = z3.Lambda([k], _sel(obj.arr, idx))
+                none = z3.Lambda([k], _sel(obj.none, idx)) if obj.none is not None else None
                 return SSeq(ln, arr, obj.kind, obj.ekind, none)
             if st == -1:
                 # a[lo:hi:-1]
@@ -600,8 +623,8 @@ class Lib:
                     pass
                 ln = Ite(compare(">", a, b), arith("-", a, b), 0)
                 k = z3.Int(fresh("sl"))
-                arr = z3.Lambda([k], z3.Select(obj.arr, tz(a) - k))
-                none = z3.Lambda([k], z3.Select(obj.none, tz(a) - k)) if obj.none is not None else None
+                arr = z3.Lambda([k], _sel(obj.arr, tz(a) - k))
+                none = z3.Lambda([k], _sel(obj.none, tz(a) - k)) if obj.none is not None else None
                 return SSeq(ln, arr, obj.kind, obj.ekind, none)
         interp.err(node, "slice %r[%r:%r:%r]" % (type(obj).__name__, lo, hi, st))
 
@@ -660,7 +683,7 @@ class Lib:
                     interp.err(node, "masked store of a non-scalar")
                 k = z3.Int(fresh("ms"))
                 conv = {"int": tz, "real": treal, "bool": tb}[obj.ekind]
-                obj.arr = z3.Lambda([k], z3.If(z3.Select(idx.arr, k), conv(v), z3.Select(obj.arr, k)))
+                obj.arr = z3.Lambda([k], z3.If(_sel(idx.arr, k), conv(v), _sel(obj.arr, k)))
                 return
         if isinstance(obj, CList):
             if isinstance(idx, int):
@@ -713,12 +736,12 @@ class Lib:
                 if same is not True:
                     if same is False or not interp.ctx.decide(tb(same), "ValueError", node):
                         raise PyRaise("ValueError", "could not broadcast", node)
-                newv = z3.Select(v.arr, k - tz(a))
+                newv = _sel(v.arr, k - tz(a))
                 if obj.ekind == "real" and v.ekind == "int":
                     newv = z3.ToReal(newv)
             else:
                 interp.err(node, "slice store of %r" % (v,))
-            obj.arr = z3.Lambda([k], z3.If(inside, newv, z3.Select(obj.arr, k)))
+            obj.arr = z3.Lambda([k], z3.If(inside, newv, _sel(obj.arr, k)))
             return
         if isinstance(obj, CList) and all(x is None or isinstance(x, int) for x in (lo, hi, st)):
             idxs = list(range(len(obj.items)))[lo:hi:st]
@@ -833,6 +856,12 @@ class Lib:
         return None
 
     def binop_ext(self, interp, op, a, b, node):
+        if op in ("|", "&", "-") and isinstance(a, SOpaque) and isinstance(b, SOpaque) and a.tag == "set" and b.tag == "set":
+            if op == "|":
+                return SOpaque("set", list(a.payload) + [x for x in b.payload if x not in a.payload])
+            if op == "&":
+                return SOpaque("set", [x for x in a.payload if x in b.payload])
+            return SOpaque("set", [x for x in a.payload if x not in b.payload])
         if op in self.DUNDER and (isinstance(a, SObj) or isinstance(b, SObj)):
             fwd, rev = self.DUNDER[op]
             if isinstance(a, SObj):
@@ -891,7 +920,7 @@ class Lib:
             total = arith("+", total, p.length)
 
         def sel(p, idx):
-            t = z3.Select(p.arr, idx)
+            t = _sel(p.arr, idx)
             return z3.ToReal(t) if ek == "real" and p.ekind == "int" else t
         body = sel(parts[-1], k - tz(offs[-1]))
         for p, o, nxt in zip(reversed(parts[:-1]), reversed(offs[:-1]), reversed(offs[1:])):
@@ -899,7 +928,7 @@ class Lib:
         none = None
         if any(p.none is not None for p in parts):
             def nsel(p, idx):
-                return z3.Select(p.none, idx) if p.none is not None else z3.BoolVal(False)
+                return _sel(p.none, idx) if p.none is not None else z3.BoolVal(False)
             nb = nsel(parts[-1], k - tz(offs[-1]))
             for p, o, nxt in zip(reversed(parts[:-1]), reversed(offs[:-1]), reversed(offs[1:])):
                 nb = z3.If(k < tz(nxt), nsel(p, k - tz(o)), nb)
@@ -1461,8 +1490,8 @@ class Lib:
             i = z3.Int(fresh("i"))
             ctx.assume(wrap(z3.ForAll([i], z3.Implies(z3.And(0 <= i, i < tz(n)),
                                                      z3.And(0 <= pos(i), pos(i) < tz(u.length),
-                                                            z3.Select(u.arr, pos(i)) == tz(At(p, SInt(i))))))))
-            alts.append(z3.And(which(j) == pi, 0 <= src(j), src(j) < tz(n), tz(At(p, SInt(src(j)))) == z3.Select(u.arr, j)))
+                                                            _sel(u.arr, pos(i)) == tz(At(p, SInt(i))))))))
+            alts.append(z3.And(which(j) == pi, 0 <= src(j), src(j) < tz(n), tz(At(p, SInt(src(j)))) == _sel(u.arr, j)))
         ctx.assume(wrap(z3.ForAll([j], z3.Implies(z3.And(0 <= j, j < tz(u.length)), z3.Or(*alts)))))
         u.skolem = {"which": which, "src": src}
         return u
@@ -1498,7 +1527,7 @@ class Lib:
             srcs.append(src)
             ctx.assume(wrap(z3.ForAll([j], z3.Implies(z3.And(0 <= j, j < tz(u.length)),
                                                      z3.And(0 <= src(j), src(j) < tz(Len(p)),
-                                                            tz(At(p, SInt(src(j)))) == z3.Select(u.arr, j))))))
+                                                            tz(At(p, SInt(src(j)))) == _sel(u.arr, j))))))
         pos = z3.Function(fresh("ipos"), z3.IntSort(), z3.IntSort())
         i0 = z3.Int(fresh("i"))
         others = parts[1:]
@@ -1506,7 +1535,7 @@ class Lib:
         hyp = [z3.And(0 <= iv, iv < tz(Len(p)), tz(At(p, SInt(iv))) == tz(At(parts[0], SInt(i0)))) for iv, p in zip(ivars, others)]
         ctx.assume(wrap(z3.ForAll([i0] + ivars, z3.Implies(z3.And(0 <= i0, i0 < tz(Len(parts[0])), *hyp),
                                                           z3.And(0 <= pos(i0), pos(i0) < tz(u.length),
-                                                                 z3.Select(u.arr, pos(i0)) == tz(At(parts[0], SInt(i0))))))))
+                                                                 _sel(u.arr, pos(i0)) == tz(At(parts[0], SInt(i0))))))))
         u.skolem = {"src": srcs, "pos": pos}
         return u
 
@@ -1529,17 +1558,17 @@ class Lib:
         k, k2 = z3.Int(fresh("k")), z3.Int(fresh("k"))
         n = tz(ia.length)
         ctx.assume(wrap(z3.ForAll([k], z3.Implies(z3.And(0 <= k, k < n), z3.And(
-            0 <= z3.Select(ia.arr, k), z3.Select(ia.arr, k) < tz(Len(a)),
-            0 <= z3.Select(ib.arr, k), z3.Select(ib.arr, k) < tz(Len(b)),
-            tz(At(a, SInt(z3.Select(ia.arr, k)))) == tz(At(b, SInt(z3.Select(ib.arr, k)))))))))
+            0 <= _sel(ia.arr, k), _sel(ia.arr, k) < tz(Len(a)),
+            0 <= _sel(ib.arr, k), _sel(ib.arr, k) < tz(Len(b)),
+            tz(At(a, SInt(_sel(ia.arr, k)))) == tz(At(b, SInt(_sel(ib.arr, k)))))))))
         ctx.assume(wrap(z3.ForAll([k, k2], z3.Implies(z3.And(0 <= k, k < k2, k2 < n), z3.And(
-            z3.Select(ia.arr, k) < z3.Select(ia.arr, k2), z3.Select(ib.arr, k) < z3.Select(ib.arr, k2))))))
+            _sel(ia.arr, k) < _sel(ia.arr, k2), _sel(ib.arr, k) < _sel(ib.arr, k2))))))
         pos = z3.Function(fresh("cpos"), z3.IntSort(), z3.IntSort())
         i, j = z3.Int(fresh("i")), z3.Int(fresh("j"))
         ctx.assume(wrap(z3.ForAll([i, j], z3.Implies(z3.And(0 <= i, i < tz(Len(a)), 0 <= j, j < tz(Len(b)),
                                                             tz(At(a, SInt(i))) == tz(At(b, SInt(j)))),
-                                                     z3.And(0 <= pos(i), pos(i) < n, z3.Select(ia.arr, pos(i)) == i,
-                                                            z3.Select(ib.arr, pos(i)) == j)))))
+                                                     z3.And(0 <= pos(i), pos(i) < n, _sel(ia.arr, pos(i)) == i,
+                                                            _sel(ib.arr, pos(i)) == j)))))
         vals = self.fancy_index(interp, self.f_list(interp, [a], {}, node) if isinstance(a, SRange) else a, ia, node)
         ia.skolem = {"ib": ib, "pos": pos}
         return (vals, ia, ib)
@@ -1723,7 +1752,7 @@ class Lib:
         if isinstance(x, SSeq):
             k = z3.Int(fresh("df"))
             n = Ite(compare(">", x.length, 0), arith("-", x.length, 1), 0)
-            return SSeq(n, z3.Lambda([k], z3.Select(x.arr, k + 1) - z3.Select(x.arr, k)), "ndarray", x.ekind)
+            return SSeq(n, z3.Lambda([k], _sel(x.arr, k + 1) - _sel(x.arr, k)), "ndarray", x.ekind)
         interp.err(node, "np.diff(%r)" % (x,))
 
     def f_np__min(self, interp, args, kwargs, node):
